@@ -38,7 +38,7 @@ func init() {
 		Plan: func(tier string, seed int64) *harness.Plan {
 			var src *strSource
 			return &harness.Plan{
-				N: size(tier, 120000, 1500000),
+				N: size(tier, 120000, 8000000),
 				Setup: func(c *harness.Ctx) {
 					hooksOn()
 					src = newStrSource()
